@@ -21,8 +21,10 @@ def held : ZLoc → Nat → Prop
 def phaseOk : ZLoc → Ring.Loc → Ring.Loc → Prop
   | .eAlloc _, f, q => ConsLoc f ∧ q = .idle
   | .ePub _ id, f, q => f = .idle ∧ ProdLoc id q
+  | .ePubLen _, f, q => f = .idle ∧ ∃ sid, q = .pLen sid
   | .dCons, f, q => f = .idle ∧ ConsLoc q
   | .dFree id _, f, q => ProdLoc id f ∧ q = .idle
+  | .dFreeLen _, f, q => (∃ sid, f = .pLen sid) ∧ q = .idle
   | _, f, q => f = .idle ∧ q = .idle
 
 structure ZInv (s : St) : Prop where
@@ -61,6 +63,8 @@ theorem phase_noCan (s : St) (h : ∀ t, phaseOk (s.thr t) (s.free.thr t) (s.q.t
     | exact consLoc_noCan this.2 _ _ _ e
     | exact prodLoc_noCan this.1 _ _ _ e
     | exact prodLoc_noCan this.2 _ _ _ e
+    | (obtain ⟨sid, hs⟩ := this.1; rw [hs] at e; cases e)
+    | (obtain ⟨sid, hs⟩ := this.2; rw [hs] at e; cases e)
 
 /-- Ring invariant after `step t` then any further non-step actions -/
 theorem inv_step_then (s : Ring.St) (t : Nat) (h : Ring.Inv s) (hn : Ring.NoCan s) : Ring.Inv (Ring.step s t) :=
@@ -170,22 +174,21 @@ theorem zinv_step_ePub (s : St) (t v id : Nat) (h : ZInv s) (hz : s.thr t = .ePu
   simp only [hz, phaseOk] at hph
   have hqI := inv_step_then s.q t h.qInv hnc.2
   have hheld : held (s.thr t) id := by simp [hz, held]
-  rcases producer_step s.q t id h.qInv hph.2 with ⟨len, hd, ha⟩ | ⟨hd, ha, -⟩ | ⟨hc, ha⟩
+  rcases producer_step s.q t id h.qInv hph.2 with ⟨sid, hd, ha⟩ | ⟨hd, ha, -⟩ | ⟨hc, ha⟩
   · -- published
     simp only [step, hz, hd]
     apply zinv_of s _ t h
     · rfl
     · rfl
-    · simp [Ring.apply_N, Ring.step_N]
+    · simp [Ring.step_N]
     · exact h.fInv
-    · exact inv_nonstep _ (.ack t) hqI (by intro u e; cases e)
+    · exact hqI
     · intro u hu
-      refine ⟨by simp [hu], rfl, ?_⟩
-      simp only [q_setThr]; rw [ring_other _ _ u (by simpa [Ring.Act.thread] using hu), Ring.step_thr_ne _ _ _ hu]
+      exact ⟨by simp [hu], rfl, by simp only [q_setThr]; exact Ring.step_thr_ne _ _ _ hu⟩
     · simp only [thr_setThr, if_true, free_setThr, q_setThr, phaseOk]
-      exact ⟨hph.1, ring_ack_thr _ t _ hd⟩
+      exact ⟨hph.1, sid, hd⟩
     · simp only [free_setThr, q_setThr]
-      rw [ring_abs_apply _ _ (by intro u e; cases e), ha]
+      rw [ha]
       refine h.tok.put t id ?_ hheld ?_
       · rw [← List.append_assoc]; exact List.perm_append_singleton _ _
       · intro u x hx
@@ -213,9 +216,10 @@ theorem zinv_step_ePub (s : St) (t v id : Nat) (h : ZInv s) (hz : s.thr t = .ePu
       · exact hx
       · simp [held] at hx
   · have hnd : ∀ r, (Ring.step s.q t).thr t ≠ .done r := by intro r e; rw [e] at hc; exact hc
+    have hnl : ∀ k, (Ring.step s.q t).thr t ≠ .pLen k := by intro k e; rw [e] at hc; exact hc
     simp only [step, hz]
     split
-    · next len e => exact absurd e (hnd _)
+    · next k e => exact absurd e (hnl _)
     · next e => exact absurd e (hnd _)
     · apply zinv_of s _ t h
       · rfl
@@ -317,21 +321,20 @@ theorem zinv_step_dFree (s : St) (t id v : Nat) (h : ZInv s) (hz : s.thr t = .dF
   simp only [hz, phaseOk] at hph
   have hfI := inv_step_then s.free t h.fInv hnc.1
   have hheld : held (s.thr t) id := by simp [hz, held]
-  rcases producer_step s.free t id h.fInv hph.1 with ⟨len, hd, ha⟩ | ⟨hd, ha, -⟩ | ⟨hc, ha⟩
+  rcases producer_step s.free t id h.fInv hph.1 with ⟨sid, hd, ha⟩ | ⟨hd, ha, -⟩ | ⟨hc, ha⟩
   · simp only [step, hz, hd]
     apply zinv_of s _ t h
     · rfl
-    · simp [Ring.apply_N, Ring.step_N]
+    · simp [Ring.step_N]
     · rfl
-    · exact inv_nonstep _ (.ack t) hfI (by intro u e; cases e)
+    · exact hfI
     · exact h.qInv
     · intro u hu
-      refine ⟨by simp [hu], ?_, rfl⟩
-      simp only [free_setThr]; rw [ring_other _ _ u (by simpa [Ring.Act.thread] using hu), Ring.step_thr_ne _ _ _ hu]
+      exact ⟨by simp [hu], by simp only [free_setThr]; exact Ring.step_thr_ne _ _ _ hu, rfl⟩
     · simp only [thr_setThr, if_true, free_setThr, q_setThr, phaseOk]
-      exact ⟨ring_ack_thr _ t _ hd, hph.2⟩
+      exact ⟨⟨sid, hd⟩, hph.2⟩
     · simp only [free_setThr, q_setThr]
-      rw [ring_abs_apply _ _ (by intro u e; cases e), ha]
+      rw [ha]
       refine h.tok.put t id ?_ hheld ?_
       · rw [List.append_assoc]
         exact (List.perm_middle (a := id) (l₁ := Ring.abs s.free) (l₂ := Ring.abs s.q))
@@ -359,9 +362,10 @@ theorem zinv_step_dFree (s : St) (t id v : Nat) (h : ZInv s) (hz : s.thr t = .dF
       · exact hx
       · simp [held] at hx
   · have hnd : ∀ r, (Ring.step s.free t).thr t ≠ .done r := by intro r e; rw [e] at hc; exact hc
+    have hnl : ∀ k, (Ring.step s.free t).thr t ≠ .pLen k := by intro k e; rw [e] at hc; exact hc
     simp only [step, hz]
     split
-    · next len e => exact absurd e (hnd _)
+    · next k e => exact absurd e (hnl _)
     · next e => exact absurd e (hnd _)
     · apply zinv_of s _ t h
       · rfl
@@ -376,6 +380,60 @@ theorem zinv_step_dFree (s : St) (t id v : Nat) (h : ZInv s) (hz : s.thr t = .dF
         rw [ha]; exact h.tok
 
 
+theorem zinv_step_ePubLen (s : St) (t v : Nat) (h : ZInv s) (hz : s.thr t = .ePubLen v) : ZInv (step s t) := by
+  have hnc := phase_noCan s h.phase
+  have hph := h.phase t
+  simp only [hz, phaseOk] at hph
+  obtain ⟨hf, sid, hq⟩ := hph
+  have hqI := inv_step_then s.q t h.qInv hnc.2
+  obtain ⟨⟨len, hd⟩, ha⟩ := plen_step s.q t sid hq
+  simp only [step, hz, hd]
+  apply zinv_of s _ t h
+  · rfl
+  · rfl
+  · simp [Ring.apply_N, Ring.step_N]
+  · exact h.fInv
+  · exact inv_nonstep _ (.ack t) hqI (by intro u e; cases e)
+  · intro u hu
+    refine ⟨by simp [hu], rfl, ?_⟩
+    simp only [q_setThr]; rw [ring_other _ _ u (by simpa [Ring.Act.thread] using hu), Ring.step_thr_ne _ _ _ hu]
+  · simp only [thr_setThr, if_true, free_setThr, q_setThr, phaseOk]
+    exact ⟨hf, ring_ack_thr _ t _ hd⟩
+  · simp only [free_setThr, q_setThr]
+    rw [ring_abs_apply _ _ (by intro u e; cases e), ha]
+    refine h.tok.same (List.Perm.refl _) ?_
+    intro u x hx
+    rcases held_cases s _ t (fun u hu => by simp [hu]) u x hx with ⟨hu, hx⟩ | ⟨hu, hx⟩
+    · exact hx
+    · simp [held] at hx
+
+theorem zinv_step_dFreeLen (s : St) (t v : Nat) (h : ZInv s) (hz : s.thr t = .dFreeLen v) : ZInv (step s t) := by
+  have hnc := phase_noCan s h.phase
+  have hph := h.phase t
+  simp only [hz, phaseOk] at hph
+  obtain ⟨⟨sid, hf⟩, hq⟩ := hph
+  have hfI := inv_step_then s.free t h.fInv hnc.1
+  obtain ⟨⟨len, hd⟩, ha⟩ := plen_step s.free t sid hf
+  simp only [step, hz, hd]
+  apply zinv_of s _ t h
+  · rfl
+  · simp [Ring.apply_N, Ring.step_N]
+  · rfl
+  · exact inv_nonstep _ (.ack t) hfI (by intro u e; cases e)
+  · exact h.qInv
+  · intro u hu
+    refine ⟨by simp [hu], ?_, rfl⟩
+    simp only [free_setThr]; rw [ring_other _ _ u (by simpa [Ring.Act.thread] using hu), Ring.step_thr_ne _ _ _ hu]
+  · simp only [thr_setThr, if_true, free_setThr, q_setThr, phaseOk]
+    exact ⟨ring_ack_thr _ t _ hd, hq⟩
+  · simp only [free_setThr, q_setThr]
+    rw [ring_abs_apply _ _ (by intro u e; cases e), ha]
+    refine h.tok.same (List.Perm.refl _) ?_
+    intro u x hx
+    rcases held_cases s _ t (fun u hu => by simp [hu]) u x hx with ⟨hu, hx⟩ | ⟨hu, hx⟩
+    · exact hx
+    · simp [held] at hx
+
 theorem zinv_step (s : St) (t : Nat) (h : ZInv s) : ZInv (step s t) := by
   have hph := h.phase t
   cases hz : s.thr t with
@@ -383,6 +441,8 @@ theorem zinv_step (s : St) (t : Nat) (h : ZInv s) : ZInv (step s t) := by
   | done r => simp only [step, hz]; exact h
   | eAlloc v => exact zinv_step_eAlloc s t v h hz
   | ePub v id => exact zinv_step_ePub s t v id h hz
+  | ePubLen v => exact zinv_step_ePubLen s t v h hz
+  | dFreeLen v => exact zinv_step_dFreeLen s t v h hz
   | dCons => exact zinv_step_dCons s t h hz
   | dFree id v => exact zinv_step_dFree s t id v h hz
   | dLen id =>
